@@ -14,6 +14,7 @@ PROPERTY = "C02"
 FUNCTIONS = ["DefaultArgsParser.parse/_parse/_parse_argument/_parse_long_option/_parse_short_option/_parse_short_option_set/_add_long_option/_add_short_option/_insert_missing_command_names",
              "Args.set_option/set_argument", "Option.parse / Argument.parse", "ArgsFormat queries"]
 PART = {}
+EXTRA_BOUNDS = "also: options with defaults of the declared native type (S11, S12); dd_tail: 0-2 words, '--', 0-2 tokens from a 7-literal menu on 6 formats (incl. a format whose sibling on the same base object was used first); value_rule: required/optional-value option followed by each of 7 token kinds; dash_run: 3-5 dashes before a real option name; command_parse: Command.parse x configured leniency x explicit/omitted mode x 6 lines."
 ALPHA = "-=fox1"
 MENU = ["", "-", "--", "---", "--=", "-=", "null", "--opt", "--flag", "-f", "-o", "--opt=", "-fo", "-of", "--num=x", "-n", "-1", "--maybe", "-m"]
 BOUNDS = {"quick": "1-2 symbolic tokens (lengths 0..3 / 0..2 over {-,=,f,o,x,1}) on 8 format skeletons, plus all 3-token lines over a per-format menu of 12-17 literals (formats S1,S2,S4,S7); strict and lenient",
